@@ -79,9 +79,25 @@ def ll():
     return lowlevel
 
 
+def _f32_exact_small(*arrs):
+    """integer-valued data small enough that every partial sum of a filter bank stays exactly representable in float32"""
+    return all(np.all(np.asarray(a) == np.round(a)) and (np.abs(a).max() if np.size(a) else 0) <= 64 for a in arrs)
+
+
+def _as_taps(w, k):
+    """the functional API also takes the filters as a list / NumPy array of taps (it then prepares them itself)"""
+    w = np.asarray(w, dtype=np.float64).ravel()
+    return [float(v) for v in w] if k % 2 == 0 else w.copy()
+
+
 def afb1d(ps, ts):
     ax, m = ps
     w0, w1, x = ts
+    if x.ndim == 4 and _f32_exact_small(w0, w1, x) and _u(x, 'taps') < 0.3:
+        # documented second form: taps as lists / arrays (un-reversed: afb1d reverses non-tensor filters itself and builds
+        # float32 kernels, so the data is float32 too - exact for these integers)
+        y = ll().afb1d(torch.tensor(x, dtype=torch.float32), _as_taps(np.asarray(w0)[::-1], 0), _as_taps(np.asarray(w1)[::-1], 1), mode=LM(m, ps, ts), dim=ax)
+        return [N(y)]
     return [N(ll().afb1d(T(x), T(w0), T(w1), mode=LM(m, ps, ts), dim=ax))]
 
 
@@ -94,6 +110,11 @@ def afb1d_atrous(ps, ts):
 def sfb1d(ps, ts):
     ax, m = ps
     g0, g1, lo, hi = ts
+    # (not at the degenerate sizes where the transposed convolution has no output: torch's float32 and float64 kernels
+    # disagree there on whether that is an error, which is not the library's business)
+    if lo.ndim == 4 and _f32_exact_small(g0, g1, lo, hi) and 2 * (lo.shape[ax] - 1) + np.size(g0) >= 2 * (np.size(g0) - 2) + 1 and _u(lo, 'taps') < 0.3:
+        y = ll().sfb1d(torch.tensor(lo, dtype=torch.float32), torch.tensor(hi, dtype=torch.float32), _as_taps(g0, 1), _as_taps(g1, 0), mode=LM(m, ps, ts), dim=ax)
+        return [N(y)]
     return [N(ll().sfb1d(T(lo), T(hi), T(g0), T(g1), mode=LM(m, ps, ts), dim=ax))]
 
 
